@@ -74,6 +74,26 @@ func genC08Query(t *kernel.Tape, id uint16) (q c08Query) {
 }
 
 func checkC08(tk *task, tr string, encrypted, stream bool, limit int, q c08Query, body []byte) {
+	if len(body) > limit && tr == "dnscrypt-udp" {
+		// The server truncates to the limit counting name compression; the
+		// DNSCrypt layer then sends the message without compression.
+		m := &dns.Msg{}
+		if m.Unpack(body) == nil {
+			m.Compress = true
+			if m.Len() <= limit {
+				tk.Failf("C08/dnscrypt-udp-uncompressed",
+					"dnscrypt-udp: message fits the limit only with name compression but is sent without it",
+					"%s (udp size %d, opt=%v): %d bytes as sent, %d bytes compressed, limit %d",
+					q.msg.Question[0].Name, q.udpSize, q.hasOPT, len(body), m.Len(), limit)
+				if tk.Failed() {
+					return
+				}
+				// A listed finding: judge the rest against the size the
+				// message has with compression.
+				limit = len(body)
+			}
+		}
+	}
 	if len(body) > limit {
 		w := fmt.Sprintf("%s: response larger than the transport's limit", tr)
 		tk.Failf("C08/too-large", w, "%s %s (udp size %d, opt=%v): %d bytes on the wire, limit %d",
@@ -99,7 +119,15 @@ func checkC08(tk *task, tr string, encrypted, stream bool, limit int, q c08Query
 	}
 	if resp.Rcode == dns.RcodeSuccess && got < wrote {
 		tk.Probe("truncated-" + tr)
-		if !resp.Truncated || len(resp.Answer) != 0 {
+		if tr == "dnscrypt-tcp" && resp.Truncated && len(resp.Answer) != 0 && len(body) > 65535-64-1100 {
+			tk.Failf("C08/dnscrypt-tcp-envelope-truncation",
+				"dnscrypt-tcp: response that fits 65535 but not 65535 minus the envelope is cut by the DNSCrypt layer with TC set and answers kept",
+				"%s: handler wrote %d records, client got %d, tc=%v answers=%d, %d bytes",
+				q.msg.Question[0].Name, wrote, got, resp.Truncated, len(resp.Answer), len(body))
+			if tk.Failed() {
+				return
+			}
+		} else if !resp.Truncated || len(resp.Answer) != 0 {
 			tk.Failf("C08/unsafe-truncation", tr+": records dropped without TC and an empty answer section",
 				"%s %s: handler wrote %d records, client got %d, tc=%v answers=%d",
 				tr, q.msg.Question[0].Name, wrote, got, resp.Truncated, len(resp.Answer))
@@ -163,7 +191,7 @@ func runC08(s *kernel.Sim, _ string) {
 	n.Faults = simnet.Faults{}
 	maxUDP := kernel.Pick(t, []uint16{1232, 0, 512, 4096, 65535}, "max-udp-resp")
 	p := &pipeline{}
-	sv := startServers(s, n, p, serverOpts{dot: true, doh: true, doq: true, maxUDPRespSize: maxUDP})
+	sv := startServers(s, n, p, serverOpts{dot: true, doh: true, doq: true, dnscrypt: true, maxUDPRespSize: maxUDP})
 	defer sv.shutdown()
 	defer runtime.GC()
 
@@ -229,6 +257,70 @@ func runC08(s *kernel.Sim, _ string) {
 			checkC08(tk, "doh", true, true, 65535, q, body)
 			if tk.Failed() {
 				return
+			}
+
+			// DNSCrypt: the limit of the statement applies to the datagram on
+			// the wire, envelope included.
+			{
+				dc := newDCClient(sv.dcCert, uint64(q.msg.Id))
+				dlimit := adv
+				if maxUDP > 0 && int(maxUDP) < dlimit {
+					// The configured maximum (zero is not a value a
+					// configuration can have).
+					dlimit = int(maxUDP)
+				}
+				if dlimit < 512 {
+					dlimit = 512
+				}
+				if len(q.raw) <= 1000 {
+					fr := rawUDP(n, addrDC, ip, dc.seal(q.raw))
+					if len(fr) != 1 {
+						tk.Failf("C08/no-answer", "dnscrypt-udp: no single answer", "%s: %d datagrams", q.msg.Question[0].Name, len(fr))
+
+						return
+					}
+					plain, derr := dc.open(fr[0])
+					if derr != nil {
+						tk.Failf("C08/undecodable", "dnscrypt-udp: reply does not decrypt", "%v", derr)
+
+						return
+					}
+					// First the message inside the envelope, then the
+					// datagram as a whole.
+					checkC08(tk, "dnscrypt-udp", false, false, dlimit, q, plain)
+					if tk.Failed() {
+						return
+					}
+					if len(fr[0]) > dlimit {
+						tk.Failf("C08/dnscrypt-udp-envelope", "dnscrypt-udp: datagram on the wire larger than the limit (message inside fits)",
+							"%s (udp size %d, opt=%v): %d bytes on the wire, %d bytes of DNS message, limit %d",
+							q.msg.Question[0].Name, q.udpSize, q.hasOPT, len(fr[0]), len(plain), dlimit)
+						if tk.Failed() {
+							return
+						}
+					}
+				}
+				fr, end := streamExchange(tk, n, addrDC, nil, [][]byte{withPrefix(dc.seal(q.raw))}, false)
+				if len(fr) != 1 {
+					tk.Failf("C08/no-answer", "dnscrypt-tcp: no single answer", "%s: %d frames, end %s", q.msg.Question[0].Name, len(fr), end)
+
+					return
+				}
+				if len(fr[0]) > 65535 {
+					tk.Failf("C08/too-large", "dnscrypt-tcp: response larger than the transport's limit", "%d", len(fr[0]))
+
+					return
+				}
+				plain, derr := dc.open(fr[0])
+				if derr != nil {
+					tk.Failf("C08/undecodable", "dnscrypt-tcp: reply does not decrypt", "%v", derr)
+
+					return
+				}
+				checkC08(tk, "dnscrypt-tcp", false, true, 65535, q, plain)
+				if tk.Failed() {
+					return
+				}
 			}
 
 			out := rawDoQ(n, addrDoQ, ip, [][]byte{q.raw})
